@@ -9,7 +9,8 @@ PARTS = ['pbf', 'text', 'o5m']
 def run(ctx):
     here = os.path.dirname(os.path.abspath(__file__))
     parts = []
-    for name in PARTS:
+    only = os.environ.get('C03_PARTS')      # development aid: run a subset of the parts (evidence is then partial)
+    for name in (only.split(',') if only else PARTS):
         if os.path.exists(os.path.join(here, 'c03_%s.py' % name)):
             parts.append(importlib.import_module('props.c03_%s' % name))
     if not parts:
@@ -19,7 +20,10 @@ def run(ctx):
     for m in parts:
         modules += [x for x in getattr(m, 'MODULES', []) if x not in modules]
         exes += [x for x in getattr(m, 'EXES', []) if x not in exes]
+    import time
+    t0 = time.time()
     ctx.part_proof_ok = ctx.proof_stage(exes=exes, modules=modules)
+    ctx.extra.setdefault('c03_seconds', {})['proof-stage'] = round(time.time() - t0, 1)
     rules = []
     for m in parts:
         m.run_part(ctx)
